@@ -42,6 +42,7 @@ type c20Input struct {
 	ToStdout bool    `json:"stdout,omitempty"`
 	FromStdin bool   `json:"stdin,omitempty"`
 	PreExisting bool `json:"preexisting,omitempty"` // the named output file already exists and is longer than the new output
+	OutFull bool `json:"outfull,omitempty"` // the named output cannot be written (/dev/full): a failure that must be reported
 	Readings [][2]int32 `json:"readings,omitempty"` // gopro.laptimes: GPS5 readings (lat, lon in 1e-7 degrees) of a real mp4 given to the command
 }
 
@@ -304,6 +305,9 @@ func addC20Case(ctx *Ctx, in c20Input) {
 		if in.ToStdout {
 			oa = "-"
 		}
+		if in.OutFull {
+			oa = "/dev/full"
+		}
 		args = append(args, ia, oa)
 	case "gopro.laptimes":
 		if len(in.Readings) > 0 {
@@ -404,7 +408,13 @@ func addC20Case(ctx *Ctx, in c20Input) {
 	detail := ""
 	if in.Cmd == "convert" {
 		valid := vals["decoder"] == "trackaddict" && vals["encoder"] == "laptimer" && !in.BadData && !in.NoInput
-		if valid {
+		if valid && in.OutFull {
+			// every write to the output fails: "any failure ... ends with a non-zero exit status and a message"
+			if exit == 0 || stderr.Len() == 0 {
+				exitOK = false
+				detail = "the output could not be written, yet the command exited 0 / printed nothing"
+			}
+		} else if valid {
 			want, perr := libraryPipeline(vals, input)
 			var got []byte
 			if in.ToStdout {
@@ -508,6 +518,9 @@ func runC20(ctx *Ctx) error {
 		in.ToStdout = r.Chance(0.3)
 		in.FromStdin = r.Chance(0.2) && !in.NoInput
 		in.PreExisting = !in.ToStdout && r.Chance(0.35)
+		if _, err := os.Stat("/dev/full"); err == nil && !in.ToStdout && r.Chance(0.12) {
+			in.OutFull, in.PreExisting = true, false
+		}
 		addC20Case(ctx, in)
 	}
 	for i := 0; i < ctx.N(60, 1024); i++ {
@@ -546,7 +559,7 @@ func runC20(ctx *Ctx) error {
 		lat, lon, brg, dist, tol := fv("start.latitude"), fv("start.longitude"), fv("start.bearing"), fv("start.distance"), fv("tolerance")
 		for j := 0; j < 3+r.Intn(8); j++ {
 			along := (float64(r.Intn(200))/100 - 1) * dist * 1.2
-			side := Pick(r, []float64{0, 0.03, 0.07, 0.5, 0.9 * tol, 1.1 * tol, 2, 20, 111})
+			side := Pick(r, []float64{0, 0.03, 0.07, 0.5, 0.9 * tol, 0.95 * tol, 0.97 * tol, 0.99 * tol, 1.02 * tol, 1.1 * tol, 2, 20, 111})
 			if r.Bool() {
 				side = -side
 			}
